@@ -4,6 +4,7 @@ import (
 	"fmt"
 	"math/rand"
 
+	"github.com/cinar/indicator/v2/asset"
 	"github.com/cinar/indicator/v2/strategy"
 	"simrt"
 )
@@ -103,6 +104,28 @@ func (c03) Run(c *Case, st *Stats) []Violation {
 		if r.NbrBad != "" {
 			add(name, "neighbour-pipeline-disturbed", regime, desc+r.NbrBad, r.Decisions)
 		}
+		if c.Outc {
+			// the same strategy through strategy.ComputeWithOutcome (what reports and the backtester
+			// call): actions and outcomes, each drained by an independent reader
+			ro := runStratOutcome(c, c.pipeOpts())
+			st.noteSim(&ro.SimOut)
+			if ro.Err == nil {
+				if ok, kind, detail := termination(&ro.SimOut, ro.Closed, ro.ProdDone, ro.Built); !ok {
+					add(name, kind+"-with-outcome", regime, desc+"ComputeWithOutcome: "+detail, ro.Decisions)
+					return vs
+				}
+				d := *c
+				d.Cap, d.Policy, d.Record, d.Late, d.Nbr = 0, simrt.PolicySpec{Name: "fifo"}, false, false, false
+				r1 := runStratOutcome(&d, d.pipeOpts())
+				st.noteSim(&r1.SimOut)
+				if ok1, _, _ := termination(&r1.SimOut, r1.Closed, r1.ProdDone, r1.Built); ok1 && r1.Err == nil {
+					if same, why := sameFloats(ro.Outs, r1.Outs); !same {
+						add(name, "schedule-dependent-output", regime, desc+"ComputeWithOutcome differs from canonical schedule: "+why, ro.Decisions)
+					}
+				}
+				st.Probes["strategies-run-through-ComputeWithOutcome"]++
+			}
+		}
 		d := *c
 		d.Cap, d.Policy, d.Record, d.Late, d.Nbr = 0, simrt.PolicySpec{Name: "fifo"}, false, false, false
 		r0 := runStrat(&d, d.pipeOpts())
@@ -132,4 +155,28 @@ func sameActions(a, b [][]strategy.Action) (bool, string) {
 		}
 	}
 	return true, ""
+}
+
+
+// runStratOutcome runs the strategy of the case through strategy.ComputeWithOutcome; output 0 are
+// the actions (as numbers, forwarded by a task of the harness), output 1 the outcomes.
+func runStratOutcome(c *Case, o PipeOpts) *PipeResult[float64] {
+	s := c.strat()
+	snaps := genSnapshots(c.Lens[0], c.Shape, c.DataSeed, epoch)
+	return runPipe(o, [][]*asset.Snapshot{snaps}, func(in []<-chan *asset.Snapshot) []<-chan float64 {
+		acts, outs := strategy.ComputeWithOutcome(s, in[0])
+		conv := make(chan float64)
+		simrt.GoKind("cons", func() {
+			for {
+				consYield()
+				a, ok := <-acts
+				if !ok {
+					close(conv)
+					return
+				}
+				conv <- float64(a)
+			}
+		})
+		return []<-chan float64{conv, outs}
+	})
 }
